@@ -83,7 +83,24 @@ ORDER = ["libfft_wrapper", "libmcider", "libnumint", "libxc_utils"]
 
 VARIANTS = {
     "plain": dict(cflags=["-O2", "-g", "-fopenmp"], ldflags=["-fopenmp"], sim=False),
-    "sim": dict(cflags=["-O1", "-g", "-fopenmp"], ldflags=[], sim=True),
+    # diagnostic only (not used by any registered check): AddressSanitizer build to locate
+    # heap overruns the simulator's canaries report; run python with LD_PRELOAD=libasan
+    "asan": dict(cflags=["-O1", "-g", "-fopenmp", "-fsanitize=address", "-fno-omit-frame-pointer"], ldflags=["-fopenmp", "-fsanitize=address"], sim=False),
+    "sim": dict(
+        cflags=[
+            "-O1",
+            "-g",
+            "-fopenmp",
+            "-Dmalloc=sim_malloc",
+            "-Dcalloc=sim_calloc",
+            "-Dfree=sim_free",
+            "-Drealloc=sim_realloc",
+            "-include",
+            os.path.join(CSRC, "simalloc.h"),
+        ],
+        ldflags=[],
+        sim=True,
+    ),
     "simtrace": dict(
         cflags=[
             "-O1",
@@ -177,6 +194,13 @@ def build(variant="plain", repo=None, verbose=False):
         os.makedirs(os.path.join(out, "obj"))
         os.makedirs(os.path.join(out, "include"))
         shutil.copy(os.path.join(CSRC, "stub_fftw3.h"), os.path.join(out, "include", "fftw3.h"))
+        # cider_fft_config.h is generated by CMake and git-ignored: provide the no-MPI/FFTW
+        # configuration when the tree under test does not carry one
+        with open(os.path.join(out, "include", "cider_fft_config.h"), "w") as fh:
+            fh.write(
+                "#ifndef _CIDER_FFT_CONFIG_H\n#define _CIDER_FFT_CONFIG_H\n#define FFT_MKL_BACKEND 1\n"
+                "#define FFT_FFTW_BACKEND 2\n#define HAVE_MPI 0\n#define FFT_BACKEND 2\n#endif\n"
+            )
         v = VARIANTS[variant]
         if v["sim"]:
             check_no_tls(repo)
